@@ -709,6 +709,10 @@ func genHealthCheck() (string, error) {
 	if respTrue != "success" || respFalse != "failure" || onTimeout != "failure" {
 		return "", fmt.Errorf("Start: dispatch is not resp.Healthy→HandleSuccess / !Healthy→HandleFailure / timeout→HandleFailure (got %q %q %q)", respTrue, respFalse, onTimeout)
 	}
+	atTop, beforeArm, err := idPolicy(start)
+	if err != nil {
+		return "", err
+	}
 	s := header("HealthCheck", src+" (HandleSuccess, HandleFailure, Start dispatch)", hsrc+" (defaults, newHealthChecker, incHealthy/decHealthy)")
 	s += fmt.Sprintf("def defaultHealthyThreshold : Int := %d\ndef defaultUnhealthyThreshold : Int := %d\n", dh, du)
 	s += "/-- newHealthChecker: the configured unhealthy_threshold with the zero→default rule -/\n"
@@ -718,8 +722,152 @@ func genHealthCheck() (string, error) {
 	s += hs + hfail
 	s += "/-- which handler the checker loop calls for a check that answered healthy / answered unhealthy / timed out (true = HandleSuccess) -/\n"
 	s += "def dispatchHealthy : Bool := true\ndef dispatchUnhealthy : Bool := false\ndef dispatchTimeout : Bool := false\n"
+	s += "/-- sessionChecker.Start, bookkeeping of c.checkID (the id an answer must carry to be accepted):\n" +
+		"`advanceAtTop` = it is incremented at the top of EVERY iteration of the checker loop (also after an expired answer, and only\n" +
+		"after the next check's timer was armed); `advanceBeforeArm` = it is incremented right before each arming of the next check. -/\n"
+	s += fmt.Sprintf("def advanceAtTop : Bool := %v\ndef advanceBeforeArm : Bool := %v\n", atTop, beforeArm)
 	s += footer("HealthCheck")
 	return s, nil
+}
+
+func isCheckIDCall(e ast.Expr, fn string) bool {
+	c, ok := e.(*ast.CallExpr)
+	if !ok || exprKey(c.Fun) != fn || len(c.Args) < 1 {
+		return false
+	}
+	return strings.HasSuffix(exprKey(c.Args[0]), ".checkID")
+}
+
+func isArm(s ast.Stmt) bool {
+	a, ok := s.(*ast.AssignStmt)
+	if !ok || len(a.Lhs) != 1 || len(a.Rhs) != 1 || !strings.HasSuffix(exprKey(a.Lhs[0]), ".checkTimer") {
+		return false
+	}
+	c, ok := a.Rhs[0].(*ast.CallExpr)
+	return ok && exprKey(c.Fun) == "utils.NewTimer" && len(c.Args) == 2 && strings.HasSuffix(exprKey(c.Args[1]), ".OnCheck")
+}
+
+// armAdvance: does the statement list arm the next check, and is an `atomic.AddUint64(&c.checkID, 1)` statement before it?
+func armAdvance(l []ast.Stmt) (arms bool, advances bool) {
+	add := false
+	for _, s := range l {
+		if es, ok := s.(*ast.ExprStmt); ok && isCheckIDCall(es.X, "atomic.AddUint64") {
+			add = true
+		}
+		if isArm(s) {
+			return true, add
+		}
+	}
+	return false, false
+}
+
+func touchesChecker(n ast.Node) bool {
+	bad := false
+	ast.Inspect(n, func(m ast.Node) bool {
+		if c, ok := m.(*ast.CallExpr); ok {
+			k := exprKey(c.Fun)
+			if strings.HasSuffix(k, ".HandleSuccess") || strings.HasSuffix(k, ".HandleFailure") || k == "utils.NewTimer" ||
+				k == "atomic.AddUint64" || k == "atomic.StoreUint64" || strings.HasSuffix(k, ".Stop") {
+				bad = true
+			}
+		}
+		return true
+	})
+	return bad
+}
+
+// idPolicy reads the checkID bookkeeping of sessionChecker.Start.
+func idPolicy(start *ast.FuncDecl) (atTop bool, beforeArm bool, err error) {
+	var loop *ast.ForStmt
+	var pre []ast.Stmt
+	for _, s := range start.Body.List {
+		if f, ok := s.(*ast.ForStmt); ok {
+			loop = f
+			break
+		}
+		pre = append(pre, s)
+	}
+	if loop == nil {
+		return false, false, fmt.Errorf("Start: no loop")
+	}
+	arms, adv0 := armAdvance(pre)
+	if !arms {
+		return false, false, fmt.Errorf("Start: the first check is not armed before the loop")
+	}
+	var advs []bool
+	advs = append(advs, adv0)
+	topKnown := false
+	var walkErr error
+	ast.Inspect(loop.Body, func(n ast.Node) bool {
+		cc, ok := n.(*ast.CommClause)
+		if !ok {
+			return true
+		}
+		if cc.Comm == nil { // default: top of an iteration
+			if len(cc.Body) == 0 {
+				walkErr = fmt.Errorf("Start: empty default clause")
+				return true
+			}
+			a, ok := cc.Body[0].(*ast.AssignStmt)
+			if !ok || len(a.Lhs) != 1 || exprKey(a.Lhs[0]) != "currentID" || len(a.Rhs) != 1 {
+				walkErr = fmt.Errorf("Start: the iteration does not start with currentID := …")
+				return true
+			}
+			switch {
+			case isCheckIDCall(a.Rhs[0], "atomic.AddUint64"):
+				atTop, topKnown = true, true
+			case isCheckIDCall(a.Rhs[0], "atomic.LoadUint64"):
+				atTop, topKnown = false, true
+			default:
+				walkErr = fmt.Errorf("Start: currentID is neither Add nor Load of checkID")
+			}
+			return true
+		}
+		comm := commKey(cc.Comm)
+		switch {
+		case strings.HasSuffix(comm, ".timeout"):
+			arms, adv := armAdvance(cc.Body)
+			if !arms {
+				walkErr = fmt.Errorf("Start: the timeout branch does not arm the next check")
+			}
+			advs = append(advs, adv)
+		case strings.HasSuffix(comm, ".resp"):
+			found := false
+			for _, s := range cc.Body {
+				ifs, ok := s.(*ast.IfStmt)
+				if !ok {
+					continue
+				}
+				b, ok := ifs.Cond.(*ast.BinaryExpr)
+				if !ok || b.Op != token.EQL || !strings.HasSuffix(exprKey(b.X), ".ID") || exprKey(b.Y) != "currentID" {
+					continue
+				}
+				found = true
+				arms, adv := armAdvance(ifs.Body.List)
+				if !arms {
+					walkErr = fmt.Errorf("Start: the accepted-answer branch does not arm the next check")
+				}
+				advs = append(advs, adv)
+				if ifs.Else != nil && touchesChecker(ifs.Else) {
+					walkErr = fmt.Errorf("Start: the expired-answer branch is not a no-op")
+				}
+			}
+			if !found {
+				walkErr = fmt.Errorf("Start: answers are not compared with currentID")
+			}
+		}
+		return true
+	})
+	if walkErr != nil {
+		return false, false, walkErr
+	}
+	if !topKnown || len(advs) != 3 {
+		return false, false, fmt.Errorf("Start: unexpected loop structure")
+	}
+	if advs[0] != advs[1] || advs[1] != advs[2] {
+		return false, false, fmt.Errorf("Start: checkID is advanced before some armings of the next check but not all")
+	}
+	return atTop, advs[0], nil
 }
 
 func lowerFirst(s string) string { return strings.ToLower(s[:1]) + s[1:] }
